@@ -12,7 +12,26 @@ SCALES = [[0, 2, 4, 5, 7, 9, 11], [0, 2, 3, 5, 7, 8, 10], [0, 2, 4, 7, 9], [0, 1
 
 
 # ---------------- s-expressions for the driver ----------------
+def norm_v(v):
+    """Arithmetic on values: the result is a Rest iff an operand is a Rest (whichever side)."""
+    if isinstance(v, list) and v and v[0] == 'ra':
+        a, b = norm_v(v[2]), norm_v(v[3])
+        x, y = F(a[1]), F(b[1])
+        r = {'add': x + y, 'sub': x - y, 'mul': x * y, 'div': (x / y) if y != 0 else None}[v[1]]
+        rest = a[0] in ('r', 'ri') or b[0] in ('r', 'ri')
+        return ['r' if rest else 'n', str(r)]
+    return v
+
+
+def norm_seq(s):
+    if s[0] == 'finop':
+        k = s[3]
+        return ['fin'] + [norm_v(['ra', s[1], k, x] if s[2] == 'L' else ['ra', s[1], x, k]) for x in s[4:]]
+    return [s[0]] + [x if x == 'seq' else norm_v(x) for x in s[1:]]
+
+
 def sx_v(v):
+    v = norm_v(v)
     if v == 'none':
         return 'none'
     k = v[0]
@@ -38,6 +57,7 @@ def sx_ev(e):
 def sx_binds(b):
     out = []
     for k, s in b:
+        s = norm_seq(s)
         vals = [x for x in s[1:] if x != 'seq']
         out.append(f'({k} ({s[0]} ' + ' '.join(sx_v(x) for x in vals) + '))')
     return '(' + ' '.join(out) + ')'
@@ -160,6 +180,7 @@ class Raise(Exception):
 
 def o_val(v):
     """(value, is_rest)"""
+    v = norm_v(v)
     if v == 'none':
         return None, False
     k = v[0]
@@ -310,6 +331,7 @@ def o_note(e, rests, t, lat, defs):
 
 
 def o_events_bind(b, base):
+    b = [[k, norm_seq(s)] for k, s in b]
     n = None
     for k, s in b:
         vals = [x for x in s[1:] if x != 'seq']
@@ -389,6 +411,7 @@ def o_timeline(t, base):
             now += d
         return tl, now
     if k == 'chain':
+        t = [t[0], [[kk, norm_seq(sq)] for kk, sq in t[1]], t[2]]
         inner, total = o_timeline(t[2], base)
         n = None
         for kk, s in t[1]:
@@ -731,6 +754,23 @@ class Gen:
             return ['b', r.randint(0, 1)]
         raise ValueError(k)
 
+    def arith(self, k, v):
+        """Sometimes the value is the result of arithmetic with a Rest on either side (or both)."""
+        r = self.r
+        if k not in ('dur', 'degree', 'midinote', 'freq') or v[0] not in ('n', 'ni', 'r', 'ri') or r.random() > 0.12:
+            return v
+        if k == 'dur':
+            op, other = r.choice([('mul', '1/2'), ('mul', '2'), ('add', '1/4'), ('div', '2')])
+        elif k == 'freq':
+            op, other = r.choice([('mul', '2'), ('div', '2'), ('add', '55')])
+        else:
+            op, other = r.choice([('add', '12'), ('sub', '7'), ('add', '-5')])
+        a = [r.choice(['r', 'n', 'r']), v[1]]
+        b = [r.choice(['n', 'n', 'r']), other]
+        if op == 'div' or r.random() < 0.5:
+            return ['ra', op, a, b]            # value (op) number
+        return ['ra', op, b, a]                # number (op) value: the reflected operator
+
     def keys(self):
         r = self.r
         ks = []
@@ -792,6 +832,8 @@ class Gen:
             v = self.key_val(k)
             if rest_ok and k != 'delta' and v[0] in ('n', 'ni') and r.random() < 0.12:
                 v = ['r' if v[0] == 'n' else 'ri', v[1]]
+            if rest_ok:
+                v = self.arith(k, v)
             vals.append(v)
         return vals
 
@@ -810,7 +852,13 @@ class Gen:
             if k in ('scale', 'send_gate', 'has_gate', 'add_action', 'group') or x < 0.35:
                 b.append([k, ['cyc', self.key_val(k)]])
             elif x < 0.8:
-                b.append([k, ['fin'] + self.seq(k, n + r.choice([0, 0, 1, 2]))])
+                sq = self.seq(k, n + r.choice([0, 0, 1, 2]))
+                if k in ('dur', 'degree', 'midinote', 'freq') and r.random() < 0.15 and all(v[0] != 'ra' for v in sq):
+                    # k (op) Pseq / Pseq (op) k, element-wise through the operator pattern
+                    op, other = {'dur': ('mul', ['n', '1/2']), 'freq': ('mul', ['ni', '2'])}.get(k, ('add', ['ni', '12']))
+                    b.append([k, ['finop', op, r.choice(['L', 'R']), other] + sq])
+                else:
+                    b.append([k, ['fin'] + sq])
                 have_fin = True
             else:
                 b.append([k, ['cyc'] + self.seq(k, r.randint(2, 3)) + ['seq']])
@@ -1129,6 +1177,8 @@ class Check(common.Check):
                     for i in range(len(b)):
                         yield ['bind', b[:i] + b[i + 1:]]
                     for i, (key, sq) in enumerate(b):
+                        if sq[0] == 'finop':
+                            continue
                         vals = [x for x in sq[1:] if x != 'seq']
                         if len(vals) > 1:
                             yield ['bind', b[:i] + [[key, [sq[0], vals[0]]]] + b[i + 1:]]
